@@ -85,7 +85,7 @@ func gen(t *rapid.T) Case {
 	// controls: plain, distinct
 	addOp("/control", "get", J{"operationId": "getControl"})
 	addOp("/control/{id}", "put", J{"operationId": "putControl", "tags": A{"ctl"}})
-	n := rapid.IntRange(1, 2).Draw(t, "ngroups")
+	n := rapid.IntRange(0, 2).Draw(t, "ngroups") // 0: controls only
 	usedStem := map[string]bool{}
 	for g := 0; g < n; g++ {
 		gl := fmt.Sprintf("g%d", g)
@@ -279,7 +279,7 @@ func cause(kinds []string, families ...string) string {
 	for _, k := range kinds {
 		for _, f := range families {
 			if strings.HasPrefix(k, f+":") {
-				return "with-colliding-" + f
+				return "with-planted-collision"
 			}
 		}
 	}
